@@ -91,10 +91,11 @@ Section Data.
   (* ---------------- (2) the specification ---------------- *)
   (* a template as a tree: text / comments / plain markup are TOut chunks; an element that carries
      statements has its original and clean attributes, its statements, tag name, the
-     "no end tag" flag of HTML's empty elements, and its children *)
+     (of the start tag and of the end tag: the same for compiled programs), the "no end tag" flag of
+     HTML's empty elements, and its children *)
   Inductive tnode : Type :=
   | TOut (s : str)
-  | TElem (orig cur : list (str * str)) (stmts : list cmd) (tag : str) (noend : bool) (body : list tnode).
+  | TElem (orig cur : list (str * str)) (stmts : list cmd) (tag etag : str) (noend : bool) (body : list tnode).
 
   Inductive scontent : Type := SBody | SNone | SVal (structure : bool) (v : val).
   Record sstate : Type := mkSS {
@@ -124,7 +125,7 @@ Section Data.
   Fixpoint spec_node (n : tnode) : str :=
     match n with
     | TOut s => s
-    | TElem orig cur stmts tag noend body =>
+    | TElem orig cur stmts tag etag noend body =>
         let st := fold_left (apply_stmt orig) stmts (mkSS true true SBody cur) in
         if s_alive st then
           (if s_show st then tag_as_text tag (s_atts st) else []) ++
@@ -133,7 +134,7 @@ Section Data.
            | SNone => []
            | SVal structure v => content_text structure (v_text v)
            end) ++
-          (if s_show st && negb noend then end_tag_text tag else [])
+          (if s_show st && negb noend then end_tag_text etag else [])
         else []
     end.
   Definition spec_forest (f : list tnode) : str := concat (map spec_node f).
@@ -147,13 +148,49 @@ Section Data.
   Inductive rep (t : symtab) : nat -> list cmd -> list tnode -> Prop :=
   | rep_nil : forall o, rep t o [] []
   | rep_out : forall o s rest f, rep t (S o) rest f -> rep t o (COutput s :: rest) (TOut s :: f)
-  | rep_elem : forall o orig cur stmts tag sg noend sg' body bf rest f,
+  | rep_elem : forall o orig cur stmts tag sg etag noend sg' body bf rest f,
       forallb stage1_stmt stmts = true -> head_sorted 0 stmts = true ->
       syms_ok t (o + 2 + length stmts + length body) stmts = true ->
       rep t (o + 2 + length stmts) body bf ->
       rep t (o + 3 + length stmts + length body) rest f ->
-      rep t o (CStartScope orig cur :: stmts ++ CStartTag tag sg :: body ++ CEndTagEndScope tag noend sg' :: rest)
-              (TElem orig cur stmts tag noend bf :: f).
+      rep t o (CStartScope orig cur :: stmts ++ CStartTag tag sg :: body ++ CEndTagEndScope etag noend sg' :: rest)
+              (TElem orig cur stmts tag etag noend bf :: f).
+
+  (* reading a program back as a forest (recursive descent, as Model/TALProg.check_items) *)
+  Fixpoint parse_forest (fuel : nat) (t : symtab) (o : nat) (l : list cmd) : option (list tnode * list cmd) :=
+    match fuel with
+    | O => None
+    | S f =>
+        match l with
+        | [] => Some ([], [])
+        | COutput s :: r =>
+            match parse_forest f t (S o) r with
+            | Some (fr, rest) => Some (TOut s :: fr, rest)
+            | None => None
+            end
+        | CEndTagEndScope _ _ _ :: _ => Some ([], l)
+        | CStartScope orig cur :: r =>
+            let '(h, r1) := span_head r in
+            match r1 with
+            | CStartTag tag _ :: r2 =>
+                if forallb stage1_stmt h && head_sorted 0 h then
+                  match parse_forest f t (o + 2 + length h)%nat r2 with
+                  | Some (bf, CEndTagEndScope etag noend sg' :: r3) =>
+                      let e := (o + 2 + length h + (length r2 - length (CEndTagEndScope etag noend sg' :: r3)))%nat in
+                      if syms_ok t e h then
+                        match parse_forest f t (S e) r3 with
+                        | Some (fr, rest) => Some (TElem orig cur h tag etag noend bf :: fr, rest)
+                        | None => None
+                        end
+                      else None
+                  | _ => None
+                  end
+                else None
+            | _ => None
+            end
+        | _ => None
+        end
+    end.
 End Data.
 
 Arguments SBody {val}.
